@@ -175,7 +175,7 @@ def ofInt (i : Int) : Float :=
 /-- `fmod` on integer-valued doubles (sign of the dividend, also for a zero result) -/
 def fmodInt (x y : Float) : Float :=
   let r := ofInt (Int.tmod (toInt x) (toInt y))
-  if r == 0 && x < 0 then -r else r
+  if r == 0 && (x < 0 || (x == 0 && (1 / x) < 0)) then -r else r
 
 def finite (f : Float) : Bool := !f.isNaN && !f.isInf
 
@@ -314,6 +314,14 @@ def run : Nat → Task → M Out
   | n + 1, task =>
     let evalV (c : Ctx) (e : Expr) : M Val := do expectVal (← run n (.eval c e))
     let forceV (r : Ref) : M Val := do expectVal (← run n (.force r))
+    -- `a.iter().zip(b.iter())` forces the element of BOTH arrays before either result is inspected
+    let forcePair (x y : Ref) : M (Val × Val) := do
+      let xr : Except Stop Val ← tryCatch (do pure (.ok (← forceV x))) (fun st => pure (.error st))
+      let yr : Except Stop Val ← tryCatch (do pure (.ok (← forceV y))) (fun st => pure (.error st))
+      match xr, yr with
+      | .error st, _ => throw st
+      | _, .error st => throw st
+      | .ok xv, .ok yv => pure (xv, yv)
     let thunk (c : Ctx) (e : Expr) : M Ref := alloc (.waiting c e)
     let toStrM (v : Val) : M String := do
       match ← run n (.toStr v) with | .str s => pure s | _ => undecided "internal: toStr"
@@ -506,8 +514,7 @@ def run : Nat → Task → M Out
         let mut res := true
         for (x, y) in xs.zip ys do
           if res then
-            let xv ← forceV x
-            let yv ← forceV y
+            let (xv, yv) ← forcePair x y
             if !(← equalsM xv yv) then res := false
         pure (.bool res)
       | .obj x, .obj y =>
@@ -534,8 +541,7 @@ def run : Nat → Task → M Out
         let mut res : Ordering := .eq
         for (x, y) in xs.zip ys do
           if res == .eq then
-            let xv ← forceV x
-            let yv ← forceV y
+            let (xv, yv) ← forcePair x y
             res ← compareM xv yv
         if res != .eq then pure (.ord res) else pure (.ord (compare xs.length ys.length))
       | _, _ => fail "type" "values are not comparable"
